@@ -372,6 +372,22 @@ def sub_random(ctx, shard, n):
     ctx.given("history", check_history, _history_st(), 400 if ctx.quick else 2500)
 
 
+def sub_fills(ctx, shard, n):
+    """every single-value fill of a bar to exact capacity, followed by more items: the next item must open a new bar"""
+    cases = []
+    for m in METERS[:-1] + [[4, 2], [9, 8], [5, 8], [3, 8], [6, 4]]:
+        L = Fr(m[0], m[1])
+        for v in RV.VOCAB:
+            k = L / RV.vlen(v)
+            if k.denominator == 1 and 1 <= k <= (100 if ctx.quick else 1000):
+                ops = [["add_bar", "g", m]] + [["add", "str", [["C", 4]], v]] * int(k) + \
+                      [["add", "note", [["E", 4]], v], ["rest", v], ["plus", "str", [["G", 4]]]]
+                cases.append({"instr": "none", "ops": ops})
+    if shard == 0:
+        ctx.exhaustive("track: single-value fills to exact capacity, then three more items", "16 meters x 80 values, k <= %d" % (100 if ctx.quick else 1000), len(cases))
+    ctx.enumerate("history", check_history, cases[shard::n], size_key=lambda c: len(c["ops"]))
+
+
 CHORDS = ["C", "Am", "G7", "Dm7", "F#dim", "Ebmaj7", "Bb6", "E7#9", "Asus4", "Db", "Gm7b5", "B"]
 
 
@@ -418,6 +434,7 @@ def sub_composition(ctx, shard, n):
 SUBS = [
     Sub("exhaustive", sub_exhaustive, quick=8, thorough=16),
     Sub("random", sub_random, quick=4, thorough=16),
+    Sub("fills", sub_fills, quick=4, thorough=16),
     Sub("from_chords", sub_from_chords, quick=1, thorough=4),
     Sub("composition", sub_composition, quick=1, thorough=4),
 ]
